@@ -12,6 +12,9 @@ CHECKS = {
  "C01": dict(level="model_checking", technique=EV + "; plus argument-binding, namespace-resolution and predecessor kernels on the real CommandExecutable / CommandRegistry / Query classes with symbolic argument content",
              text="(a) binding: int text -99..99 in 6 forms, bool words x case + free |s|<=1, free str |s|<=2, float pool, arity 0..5 for 9 signature shapes (typed, defaulted, variadic, context, state-taking, first-command), keyword-extra subsets - each bound exactly like the documented rule or refused; (b) first active namespace that has the command; (c) step lemma over 8 (thorough 13) queries: value = f(S_P.data, converted args), variables = S_P's updated by the action, last recorded command, predecessor requested as exactly predecessor(Q); base case with/without injected input; file name only labels; (d) absolute/relative link lemma; (e) predecessor algebra on Query objects of symbolic shape.",
              design="§4 C01"),
+ "C03": dict(level="model_checking", engine="E2-symstr", technique="encode_token/decode_token translated from the current source (Python AST) into one z3 query over bounded symbolic strings, with unwinding and capacity assertions; live pyparsing parameter rule interpreted as a PEG; CrossHair/z3 for Unicode scalars and the list wrappers",
+             text="E2: for every ASCII string |s|<=3 (thorough 5) and every structured string x+SEQ+y (|x|,|y|<=1, SEQ over escape-table sequences, their prefixes/suffixes, percent escapes and entities): decode_token(encode_token(s)) == s, the encoded text consists only of unreserved characters / '~' / %HH, and the grammar's live `parameter` rule consumes all of it and yields s - unsat of the negation, translator validated against the real functions each run. E1: every Unicode scalar |s|<=1 (thorough |s|<=2) with validated quote/unquote models; decode(encode(ql)) == ql and the ActionRequest/StringActionParameter encoders for short token lists.",
+             design="§4 C03"),
  "C04": dict(level="model_checking", technique=EV + "; relational comparison cache vs NoCache",
              text="Step lemma: for each query of the family (typed/volatile/failing/bad-argument/state-variable/cache-disabling/in-place-mutating commands, as-typed vs canonical spelling, trailing file name, extra parameters, sub-evaluation from a command) and every predecessor state (symbolic data, error/volatile/caching flags, variable) and every cache pre-state for Q, the outcome (value or failure, volatility, variables, file name, extension) with the cache equals the outcome with NoCache, and the predecessor is requested with the same cache object. Quick: MemoryCache and Memory+Memory; thorough: 10 in-process configurations incl. conditional wrappers, StoreCache, FileCache/ShimFS.",
              design="§4 C04"),
